@@ -96,3 +96,5 @@ def _lock_iter(self):
     yield from self.acquire().__await__()
     return _CM(self)
 _locks._ContextManagerMixin.__iter__ = _lock_iter
+import logging as _logging
+_logging.getLogger('wpull.resmon').setLevel(_logging.ERROR)   # "psutil missing" notice at import time
